@@ -886,3 +886,397 @@ Proof.
       * intros j. rewrite Hr8. apply Hrq.
       * rewrite Hz8. now apply req_zeros.
 Qed.
+
+Lemma mode_tag_array_dec : forall t : mode_tag, {t = TagArray} + {t <> TagArray}.
+Proof. intros []; [right|right|left]; congruence. Qed.
+
+(* ================= the theorems of C03 ================= *)
+(* an abstract input: lg_k, array-mode flag, the coupon list it represents *)
+Record ainput := mkIn { in_lgk : N; in_arr : bool; in_cs : list N }.
+Definition in_active (i : ainput) : bool := in_arr i && negb (is_nil (in_cs i)).   (* non-empty array-mode input *)
+
+(* operations on a union, each carrying the abstract meaning of its argument *)
+Inductive uop :=
+| UMerge (i : ainput) (s : hsketch)      (* update(&s), s represents i *)
+| UValue (c : N)                         (* update_value(item), c = the item's coupon *)
+| UReset.
+
+Definition uop_ok (o : uop) : Prop :=
+  match o with
+  | UMerge i s => SrcOK (in_lgk i) (in_arr i) (in_cs i) s
+  | UValue c => valid c
+  | UReset => True
+  end.
+
+Definition uop_run (u : hunion) (o : uop) : outcome hunion :=
+  match o with UMerge _ s => union_update u s | UValue c => union_update_value u c | UReset => union_reset u end.
+
+Fixpoint uops_run (ops : list uop) (u : hunion) : outcome hunion :=
+  match ops with [] => Ok u | o :: r => obind (uop_run u o) (uops_run r) end.
+
+(* the Spec: (some non-empty array-mode input merged, lg_k, all coupons) since the last reset *)
+Definition sstate : Type := (bool * N * list N)%type.
+Definition spec_step (lg_max : N) (st : sstate) (o : uop) : sstate :=
+  let '(harr, lg, cs) := st in
+  match o with
+  | UMerge i _ => (harr || in_active i, if in_active i then N.min lg (in_lgk i) else lg, in_cs i ++ cs)
+  | UValue c => (harr, lg, c :: cs)
+  | UReset => (false, lg_max, [])
+  end.
+Definition spec_run (lg_max : N) (ops : list uop) (st : sstate) : sstate := fold_left (spec_step lg_max) ops st.
+
+Lemma uops_refine : forall lg_max ops harr lg cs u, Forall uop_ok ops -> GInv lg_max harr lg cs u ->
+  exists u', uops_run ops u = Ok u' /\
+    let '(harr', lg', cs') := spec_run lg_max ops (harr, lg, cs) in GInv lg_max harr' lg' cs' u'.
+Proof.
+  intros lg_max. induction ops as [|o r IH]; intros harr lg cs u Hok HG; cbn [uops_run spec_run fold_left].
+  - exists u. split; [reflexivity|assumption].
+  - inversion Hok as [|? ? Ho Hr]; subst. destruct o as [i s|c|]; cbn [uop_run spec_step uop_ok] in *.
+    + destruct (union_step lg_max harr lg cs u _ _ _ s HG Ho) as (u1 & Hu & HG1). rewrite Hu. cbn [obind].
+      apply (IH _ _ _ u1 Hr HG1).
+    + destruct (union_value_step lg_max harr lg cs u c HG Ho) as (u1 & Hu & HG1). rewrite Hu. cbn [obind].
+      apply (IH _ _ _ u1 Hr HG1).
+    + destruct (union_reset_step lg_max harr lg cs u HG) as (u1 & Hu & HG1). rewrite Hu. cbn [obind].
+      apply (IH _ _ _ u1 Hr HG1).
+Qed.
+
+(* union_refines (with update_value and reset interleaved): never stuck, and the gadget shows the
+   Spec state: coupon-set union while sparse, per-slot maximum at the folded lg_k otherwise *)
+Theorem union_refines : forall lg_max ops, 4 <= lg_max <= 21 -> Forall uop_ok ops ->
+  exists u0 u, union_new lg_max = Ok u0 /\ uops_run ops u0 = Ok u /\
+    let '(harr, lg, cs) := spec_run lg_max ops (false, lg_max, []) in
+    union_shows lg_max harr lg cs (un_gadget u) /\ un_lg_max u = lg_max.
+Proof.
+  intros lg_max ops Hlm Hok. destruct (ginv_new lg_max Hlm) as (u0 & Hn & HG0).
+  destruct (uops_refine lg_max ops false lg_max [] u0 Hok HG0) as (u & Hr & HG).
+  exists u0, u. split; [assumption|]. split; [assumption|].
+  destruct (spec_run lg_max ops (false, lg_max, [])) as [[harr lg] cs].
+  split; [now apply ginv_shows|]. now destruct HG.
+Qed.
+
+(* ---------- order and repetition of the inputs do not matter ---------- *)
+Definition merges (l : list (ainput * hsketch)) : list uop := map (fun p => UMerge (fst p) (snd p)) l.
+
+Definition sp_harr (ins : list ainput) : bool := existsb in_active ins.
+Fixpoint sp_lg (lg_max : N) (ins : list ainput) : N :=
+  match ins with [] => lg_max | i :: r => if in_active i then N.min (sp_lg lg_max r) (in_lgk i) else sp_lg lg_max r end.
+Definition sp_cs (ins : list ainput) : list N := concat (map in_cs ins).
+
+Definition st_harr (st : sstate) : bool := fst (fst st).
+Definition st_lg (st : sstate) : N := snd (fst st).
+Definition st_cs (st : sstate) : list N := snd st.
+
+Lemma spec_run_merges : forall lg_max l harr lg cs,
+  let st := spec_run lg_max (merges l) (harr, lg, cs) in
+  st_harr st = harr || sp_harr (map fst l) /\ st_lg st <= lg /\
+  (forall x, st_lg st <= x <-> lg <= x \/ exists i, In i (map fst l) /\ in_active i = true /\ in_lgk i <= x) /\
+  same_set (st_cs st) (sp_cs (map fst l) ++ cs).
+Proof.
+  intros lg_max. induction l as [|[i s] r IH]; intros harr lg cs.
+  - cbn [merges map spec_run fold_left st_harr st_lg st_cs fst snd sp_harr existsb sp_cs concat app].
+    rewrite orb_false_r. split; [reflexivity|]. split; [lia|].
+    split; [|intros c; tauto]. intros x. split; [tauto|]. intros [H|(i & [] & _)]. assumption.
+  - change (spec_run lg_max (merges ((i, s) :: r)) (harr, lg, cs))
+      with (spec_run lg_max (merges r) (harr || in_active i, (if in_active i then N.min lg (in_lgk i) else lg), in_cs i ++ cs)).
+    specialize (IH (harr || in_active i) (if in_active i then N.min lg (in_lgk i) else lg) (in_cs i ++ cs)).
+    cbv zeta in *. set (st := spec_run lg_max (merges r) _) in *. clearbody st.
+    destruct IH as (Hh & Hle & Hchar & Hcs). cbn [map fst]. split; [|split; [|split]].
+    + rewrite Hh. unfold sp_harr. cbn [existsb]. now rewrite orb_assoc.
+    + destruct (in_active i); lia.
+    + intros x. rewrite Hchar. cbn [In]. split.
+      * intros [H|(j & Hj & Ha & Hx)].
+        -- destruct (in_active i) eqn:Ea; [|now left]. destruct (N.le_gt_cases lg x); [now left|].
+           right. exists i. split; [now left|]. split; [assumption|lia].
+        -- right. exists j. split; [now right|]. now split.
+      * intros [H|(j & [<-|Hj] & Ha & Hx)].
+        -- left. destruct (in_active i); lia.
+        -- left. rewrite Ha. lia.
+        -- right. exists j. now split.
+    + intros c. rewrite (Hcs c). unfold sp_cs. cbn [map concat]. rewrite !in_app_iff. tauto.
+Qed.
+
+Lemma existsb_set : forall (f : ainput -> bool) a b, (forall i, In i a <-> In i b) -> existsb f a = existsb f b.
+Proof.
+  intros f a b H. destruct (existsb f a) eqn:Ea; symmetry.
+  - apply existsb_exists in Ea. destruct Ea as (i & Hi & Hf). apply existsb_exists. exists i. split; [now apply H|assumption].
+  - destruct (existsb f b) eqn:Eb; [|reflexivity]. apply existsb_exists in Eb. destruct Eb as (i & Hi & Hf).
+    assert (existsb f a = true) by (apply existsb_exists; exists i; split; [now apply H|assumption]). congruence.
+Qed.
+
+Lemma sp_cs_set : forall a b, (forall i, In i a <-> In i b) -> same_set (sp_cs a) (sp_cs b).
+Proof.
+  intros a b H c. unfold sp_cs. rewrite !in_concat. split; intros (l & Hl & Hc); apply in_map_iff in Hl;
+    destruct Hl as (i & <- & Hi); exists (in_cs i); (split; [apply in_map; now apply H|assumption]).
+Qed.
+
+(* two unions fed sketches of the same SET of abstract inputs (any order, any repetition, any
+   concrete representation of each input) show the same state *)
+Theorem union_order_independent : forall lg_max l l', 4 <= lg_max <= 21 ->
+  Forall uop_ok (merges l) -> Forall uop_ok (merges l') ->
+  (forall i, In i (map fst l) <-> In i (map fst l')) ->
+  exists u0 u u', union_new lg_max = Ok u0 /\ uops_run (merges l) u0 = Ok u /\ uops_run (merges l') u0 = Ok u' /\
+    sk_lgk (un_gadget u) = sk_lgk (un_gadget u') /\ sk_tag (un_gadget u) = sk_tag (un_gadget u') /\
+    sk_len (un_gadget u) = sk_len (un_gadget u') /\
+    (forall c, In c (sk_coupons (un_gadget u)) <-> In c (sk_coupons (un_gadget u'))) /\
+    (forall j, j < 2 ^ sk_lgk (un_gadget u) -> sk_reg (un_gadget u) j = sk_reg (un_gadget u') j).
+Proof.
+  intros lg_max l l' Hlm Hok Hok' Hset.
+  destruct (union_refines lg_max (merges l) Hlm Hok) as (u0 & u & Hn & Hr & Hsh).
+  destruct (union_refines lg_max (merges l') Hlm Hok') as (u0' & u' & Hn' & Hr' & Hsh').
+  assert (u0' = u0) by congruence. subst u0'. exists u0, u, u'. split; [assumption|]. split; [assumption|]. split; [assumption|].
+  pose proof (spec_run_merges lg_max l false lg_max []) as S. pose proof (spec_run_merges lg_max l' false lg_max []) as S'.
+  cbv zeta in S, S'. unfold st_harr, st_lg, st_cs in S, S'.
+  destruct (spec_run lg_max (merges l) (false, lg_max, [])) as [[harr lg] cs].
+  destruct (spec_run lg_max (merges l') (false, lg_max, [])) as [[harr' lg'] cs'].
+  cbn [fst snd] in S, S'.
+  destruct S as (Hh & _ & Hch & Hcs), S' as (Hh' & _ & Hch' & Hcs').
+  destruct Hsh as ((Hk & _ & Htag & Harr & Hsp) & _), Hsh' as ((Hk' & _ & Htag' & Harr' & Hsp') & _).
+  assert (Eh : harr = harr') by (rewrite Hh, Hh'; cbn [orb]; unfold sp_harr; now apply existsb_set).
+  assert (El : lg = lg').
+  { apply N.le_antisymm.
+    - apply Hch. destruct (proj1 (Hch' lg') (N.le_refl _)) as [H|(i & Hi & Ha & Hx)]; [now left|].
+      right. exists i. split; [now apply Hset|]. now split.
+    - apply Hch'. destruct (proj1 (Hch lg) (N.le_refl _)) as [H|(i & Hi & Ha & Hx)]; [now left|].
+      right. exists i. split; [now apply Hset|]. now split. }
+  assert (Ec : same_set cs cs').
+  { intros c. rewrite (Hcs c), (Hcs' c), !app_nil_r. now apply sp_cs_set. }
+  rewrite <- Eh, <- El in *. rewrite Hk, Hk'. split; [reflexivity|].
+  assert (Ed : distinct cs = distinct cs') by (now apply distinct_set).
+  assert (Et : sk_tag (un_gadget u) = TagArray <-> sk_tag (un_gadget u') = TagArray) by (rewrite Htag, Htag', Ed; tauto).
+  destruct (mode_tag_array_dec (sk_tag (un_gadget u))) as [Ha|Hna].
+  - pose proof (proj1 Et Ha) as Ha'. split; [congruence|].
+    assert (Hshape : forall g : hsketch, sk_tag g = TagArray -> sk_len g = 0 /\ sk_coupons g = []).
+    { intros g. unfold sk_tag, sk_len, sk_coupons. destruct (sk_mode g); try discriminate; intros _; split; reflexivity. }
+    destruct (Hshape _ Ha) as (L1 & C1), (Hshape _ Ha') as (L2 & C2). rewrite L1, L2, C1, C2.
+    split; [reflexivity|]. split; [tauto|]. intros j Hj. rewrite (Harr Ha j Hj), (Harr' Ha' j Hj). f_equal.
+    now apply spec_regs_set.
+  - assert (Hna' : sk_tag (un_gadget u') <> TagArray) by (intros H; apply Hna; now apply Et).
+    destruct (Hsp Hna) as (_ & T1 & _ & C1 & L1), (Hsp' Hna') as (_ & T2 & _ & C2 & L2).
+    split; [congruence|]. split; [congruence|]. split; [intros c; rewrite (C1 c), (C2 c); apply Ec|].
+    intros j _. unfold sk_tag, sk_reg in *. destruct (sk_mode (un_gadget u)), (sk_mode (un_gadget u')); try reflexivity;
+      try (exfalso; apply Hna; reflexivity); try (exfalso; apply Hna'; reflexivity).
+Qed.
+
+(* ---------- what a source sketch shows ---------- *)
+Lemma src_shows : forall lgk arrf cs s, SrcOK lgk arrf cs s ->
+  sk_lgk s = lgk /\ (sk_tag s = TagArray <-> arrf = true) /\
+  (arrf = true -> forall j, j < 2 ^ lgk -> sk_reg s j = Ok (spec_regs lgk cs j)) /\
+  (arrf = false -> NoDup (sk_coupons s) /\ (forall c, In c (sk_coupons s) <-> In c cs) /\ sk_len s = distinct cs).
+Proof.
+  intros lgk arrf cs s HS. pose proof HS as (Hk & Hlg & Hv & Hm). split; [assumption|].
+  unfold sk_tag, sk_reg, sk_coupons, sk_len. destruct (sk_mode s) as [l t|st t|a|a|a].
+  - destruct Hm as (-> & ds & HL & Hlen & Hss). split; [split; discriminate|]. split; [discriminate|]. intros _.
+    rewrite (list_iter_inv l ds HL). pose proof HL as (_ & Hl & Hnd & _). split; [assumption|]. split; [assumption|].
+    rewrite Hl. now apply NoDup_card.
+  - destruct Hm as (-> & _ & _ & _ & HR & _). split; [split; discriminate|]. split; [discriminate|]. intros _.
+    split; [now apply (set_iter_NoDup (hs_lg st) st cs)|]. split; [intros c; now apply (set_iter_In (hs_lg st) st cs)|].
+    now apply (set_card (hs_lg st)).
+  - destruct Hm as (-> & HI & _). split; [split; reflexivity|]. split; [|discriminate]. intros _ j Hj.
+    apply (a4_get_regs hip (fun _ _ _ x => x) lgk _ a j HI Hj).
+  - destruct Hm as (-> & _ & Hr & _). split; [split; reflexivity|]. split; [|discriminate]. intros _ j _. now rewrite Hr.
+  - destruct Hm as (-> & _ & Hr & _). split; [split; reflexivity|]. split; [|discriminate]. intros _ j _. now rewrite Hr.
+Qed.
+
+(* to_sketch(t): the result does not depend on t -- same lg_k, mode, coupon set / registers, and
+   the same estimator inputs (HIP accumulator, kxq0, kxq1, out-of-order flag, unhit count), hence
+   the same estimate and bounds (the repaired defect D2); and it is a well-formed source sketch
+   representing exactly the union's Spec state, so unions compose *)
+Theorem to_sketch_type_independent : forall lg_max ops t, 4 <= lg_max <= 21 -> Forall uop_ok ops ->
+  exists u0 u r r8, union_new lg_max = Ok u0 /\ uops_run ops u0 = Ok u /\
+    union_to_sketch u t = Ok r /\ union_to_sketch u T8 = Ok r8 /\ sk_tgt r = t /\
+    sk_lgk r = sk_lgk r8 /\ sk_tag r = sk_tag r8 /\ sk_len r = sk_len r8 /\
+    sk_est_inputs r = sk_est_inputs r8 /\
+    (forall c, In c (sk_coupons r) <-> In c (sk_coupons r8)) /\
+    (forall j, j < 2 ^ sk_lgk r -> sk_reg r j = sk_reg r8 j) /\
+    let '(harr, lg, cs) := spec_run lg_max ops (false, lg_max, []) in
+    SrcOK lg (match sk_tag (un_gadget u) with TagArray => true | _ => false end) cs r.
+Proof.
+  intros lg_max ops t Hlm Hok. destruct (ginv_new lg_max Hlm) as (u0 & Hn & HG0).
+  destruct (uops_refine lg_max ops false lg_max [] u0 Hok HG0) as (u & Hr & HG).
+  destruct (spec_run lg_max ops (false, lg_max, [])) as [[harr lg] cs].
+  destruct (tosk_spec lg_max harr lg cs u t HG) as (r & Ht & Htt & HS & Htag & Hlen & Hest).
+  destruct (tosk_spec lg_max harr lg cs u T8 HG) as (r8 & Ht8 & _ & HS8 & Htag8 & Hlen8 & Hest8).
+  exists u0, u, r, r8. split; [assumption|]. split; [assumption|]. split; [assumption|]. split; [assumption|]. split; [assumption|].
+  destruct (src_shows _ _ _ _ HS) as (Hk & Hta & Hregs & Hcoup). destruct (src_shows _ _ _ _ HS8) as (Hk8 & Hta8 & Hregs8 & Hcoup8).
+  split; [congruence|]. split; [congruence|]. split; [congruence|]. split; [congruence|]. split; [|split; [|assumption]].
+  - destruct (sk_tag (un_gadget u)) eqn:Eg.
+    + destruct (Hcoup eq_refl) as (_ & A & _), (Hcoup8 eq_refl) as (_ & B & _). intros c. now rewrite A, B.
+    + destruct (Hcoup eq_refl) as (_ & A & _), (Hcoup8 eq_refl) as (_ & B & _). intros c. now rewrite A, B.
+    + unfold sk_tag, sk_coupons in *. destruct (sk_mode r), (sk_mode r8); try discriminate; intros c; tauto.
+  - intros j Hj. rewrite Hk in Hj. destruct (sk_tag (un_gadget u)) eqn:Eg.
+    + unfold sk_tag, sk_reg in *. destruct (sk_mode r), (sk_mode r8); try discriminate; reflexivity.
+    + unfold sk_tag, sk_reg in *. destruct (sk_mode r), (sk_mode r8); try discriminate; reflexivity.
+    + now rewrite (Hregs eq_refl j Hj), (Hregs8 eq_refl j Hj).
+Qed.
+
+(* ---------- the out-of-order flag of a source reaches the gadget (the repaired defect D3) ---------- *)
+Lemma union_step_ooo : forall lg_max harr lg cs u slg scs s se u',
+  GInv lg_max harr lg cs u -> SrcOK slg true scs s -> scs <> [] ->
+  mode_est (sk_mode s) = Ok se -> h_ooo se = true -> union_update u s = Ok u' ->
+  exists a, sk_mode (un_gadget u') = MArr8 a /\ h_ooo (a8_est a) = true.
+Proof.
+  intros lg_max harr lg cs u slg scs s se u' HGI HS Hnn Hse Hooo Hup.
+  pose proof (src_is_empty slg true scs s HS) as Hemp. unfold union_update in Hup.
+  destruct (sketch_is_empty s) eqn:Ee; [exfalso; apply Hnn; now apply Hemp|].
+  rewrite (src_is_array slg true scs s HS) in Hup.
+  pose proof HGI as (Hm & Hlm & Hl4 & Hle & Hcv & seen & Hsv & Hreq & HG & Hsp & Hne & Hna & Hha).
+  pose proof HS as (Hsk & Hslg & Hscv & Hsm).
+  assert (Hglg : sk_lgk (un_gadget u) = lg).
+  { destruct (gsim_cases TT lg seen _ HG) as [(l & ds & Eg & _)|[(st & Eg & _)|(fed & a & Eg & _)]]; rewrite Eg; reflexivity. }
+  rewrite Hsk, Hglg in Hup. unfold update_from_array in Hup.
+  destruct (cod_spec slg scs s lg_max HS Hlm) as (a & fed & Hc & HR & Hfv & Hrq & Ho). specialize (Ho se Hse Hooo).
+  destruct (sketch_is_empty (un_gadget u)) eqn:Eg.
+  - rewrite Hm, Hc in Hup. cbn [obind] in Hup. inversion Hup; subst u'. cbn [un_gadget sk_mode]. now exists a.
+  - destruct (gsim_cases TT lg seen _ HG) as [(l & ds & Egd & _)|[(st & Egd & _)|(fed0 & old & Egd & Hss & Hfv0 & _ & HR0)]];
+      rewrite Egd in Hup; cbn [sk_mode mode_is_array8] in Hup.
+    + unfold promote_gadget_and_merge_array in Hup. rewrite Hm, Hc, Egd in Hup.
+      cbn [obind merge_coupons_into_mode mode_coupons sk_mode] in Hup. inversion Hup; subst u'. cbn [un_gadget sk_mode].
+      eexists. split; [reflexivity|]. now rewrite fold_a8_update_ooo.
+    + unfold promote_gadget_and_merge_array in Hup. rewrite Hm, Hc, Egd in Hup.
+      cbn [obind merge_coupons_into_mode mode_coupons sk_mode] in Hup. inversion Hup; subst u'. cbn [un_gadget sk_mode].
+      eexists. split; [reflexivity|]. now rewrite fold_a8_update_ooo.
+    + unfold merge_array_into_array_gadget in Hup. rewrite Egd in Hup. cbn [sk_mode sk_lgk] in Hup.
+      destruct (N.ltb_spec slg lg) as [Hlt|Hge].
+      * destruct (merge_down_spec slg lg fed0 (mkSketch lg (MArr8 old)) [] (a8_new slg (hip_new slg))
+                    (a8_src_ok lg fed0 old ltac:(lia) Hfv0 HR0) (new_R8 slg) Hlt) as (n1 & H1 & HR1 & _).
+        cbn [sk_mode] in H1. rewrite H1 in Hup. cbn [obind] in Hup.
+        destruct (merge_same_spec slg scs s (fed0 ++ []) n1 HS HR1) as (n2 & H2 & _ & Ho2).
+        rewrite H2 in Hup. cbn [obind] in Hup. inversion Hup; subst u'. cbn [un_gadget sk_mode]. now exists n2.
+      * destruct (merge_into_spec lg slg scs s fed0 old HS HR0 Hge) as (r & Hr & _ & Hor).
+        rewrite Hr in Hup. cbn [obind] in Hup. inversion Hup; subst u'. cbn [un_gadget sk_mode]. now exists r.
+Qed.
+
+(* full statement (not proved: needs positivity of a sum of binary64 HIP increments):
+     union_nonzero : some merged input is non-empty -> the gadget's estimate is > 0.
+   Proved part: after ANY operations, merging a non-empty out-of-order array-mode sketch leaves an
+   out-of-order Array8 gadget, i.e. the estimate is the composite estimate of a non-empty register
+   file and never the zeroed HIP accumulator of the source. *)
+Theorem union_nonzero_partial : forall lg_max ops i s se, 4 <= lg_max <= 21 -> Forall uop_ok ops ->
+  uop_ok (UMerge i s) -> in_active i = true -> mode_est (sk_mode s) = Ok se -> h_ooo se = true ->
+  exists u0 u u' a, union_new lg_max = Ok u0 /\ uops_run ops u0 = Ok u /\ union_update u s = Ok u' /\
+    sk_mode (un_gadget u') = MArr8 a /\ h_ooo (a8_est a) = true /\ a8_nz a < 2 ^ a8_lgk a.
+Proof.
+  intros lg_max ops i s se Hlm Hok Hs Hact Hse Hooo. destruct (ginv_new lg_max Hlm) as (u0 & Hn & HG0).
+  destruct (uops_refine lg_max ops false lg_max [] u0 Hok HG0) as (u & Hr & HG).
+  destruct (spec_run lg_max ops (false, lg_max, [])) as [[harr lg] cs]. cbn [uop_ok] in Hs.
+  unfold in_active in Hact. apply andb_prop in Hact. destruct Hact as [Ha Hn0]. rewrite Ha in Hs.
+  assert (Hnn : in_cs i <> []) by (destruct (in_cs i); [discriminate|discriminate]).
+  destruct (union_step lg_max harr lg cs u _ _ _ s HG Hs) as (u' & Hu & HG').
+  destruct (union_step_ooo lg_max harr lg cs u _ _ s se u' HG Hs Hnn Hse Hooo Hu) as (a & Hma & Hoa).
+  exists u0, u, u', a. split; [assumption|]. split; [assumption|]. split; [assumption|]. split; [assumption|]. split; [assumption|].
+  match type of HG' with GInv _ _ ?l _ _ => set (lg' := l) in * end. clearbody lg'.
+  destruct HG' as (_ & _ & _ & _ & Hcv' & seen & Hsv & Hreq & HGs & _ & Hne & _).
+  destruct (gsim_cases TT lg' seen _ HGs) as [(l & ds & Eg & _)|[(st & Eg & _)|(fed & a' & Eg & Hss & Hfv & _ & HR)]];
+    rewrite Eg in Hma; cbn [sk_mode] in Hma; try discriminate. inversion Hma; subst a'.
+  destruct HR as (Hk & _ & Hz & _). rewrite Hk, Hz.
+  assert (Hfn : fed <> []).
+  { intros ->. unfold sk_tag in Hne. rewrite Eg in Hne. cbn [sk_mode] in Hne. apply (Hne eq_refl).
+    apply (req_nil_valid lg' _ Hcv'). eapply req_trans; [|exact Hreq]. now apply req_same_set. }
+  destruct fed as [|c r]; [contradiction|]. inversion Hfv as [|? ? Hc _].
+  apply (zeros_lt_of_coupon lg' (c :: r) c (or_introl eq_refl) Hc).
+Qed.
+
+(* ---------- sketches built in-process (and their out-of-order copies) are well-formed sources ---------- *)
+Definition tag_flag (t : mode_tag) : bool := match t with TagArray => true | _ => false end.
+
+Lemma sim_src_ok : forall (ao : N -> list N -> Prop) lgk t seen (s s8 : hsketch), 4 <= lgk <= 21 -> Forall valid seen ->
+  Sim hip ao lgk t seen s s8 -> SrcOK lgk (tag_flag (sk_tag s)) seen s.
+Proof.
+  intros ao lgk t seen s s8 Hlg Hv HS.
+  destruct HS as [l ds HL Hlen Hss|st A B C HR F G|fed e m m8 Hf Hfv Ha HR HR8]; unfold SrcOK, sk_tag; cbn [sk_lgk sk_mode tag_flag].
+  - split; [reflexivity|]. split; [assumption|]. split; [assumption|]. split; [reflexivity|]. exists ds.
+    split; [assumption|]. split; assumption.
+  - split; [reflexivity|]. split; [assumption|]. split; [assumption|]. split; [reflexivity|]. split; [assumption|].
+    split; [assumption|]. split; [assumption|]. split; [assumption|]. split; assumption.
+  - assert (Hrq : req lgk fed seen) by (now apply req_same_set).
+    destruct t, m; cbn [RepT] in HR; try contradiction; cbn [tag_flag].
+    + destruct HR as (HI & Hpos & _). split; [reflexivity|]. split; [assumption|]. split; [assumption|]. split; [reflexivity|].
+      split; [|assumption]. apply (inv4_ext hip lgk (spec_regs lgk fed)); [intros j _; apply Hrq|assumption].
+    + destruct HR as (Hk & _ & Hr & Hz & _). split; [reflexivity|]. split; [assumption|]. split; [assumption|]. split; [reflexivity|].
+      split; [assumption|]. split; [intros j; rewrite Hr; apply Hrq|rewrite Hz; now apply req_zeros].
+    + destruct HR as (Hk & Hr & Hz & _). split; [reflexivity|]. split; [assumption|]. split; [assumption|]. split; [reflexivity|].
+      split; [assumption|]. split; [intros j; rewrite Hr; apply Hrq|rewrite Hz; now apply req_zeros].
+Qed.
+
+Lemma src_ok_set : forall lgk arrf cs cs' s, same_set cs cs' -> Forall valid cs' -> SrcOK lgk arrf cs s -> SrcOK lgk arrf cs' s.
+Proof.
+  intros lgk arrf cs cs' s Hss Hv' (Hk & Hlg & Hv & Hm). pose proof (req_same_set lgk cs cs' Hss) as Hrq.
+  split; [assumption|]. split; [assumption|]. split; [assumption|]. destruct (sk_mode s) as [l t|st t|a|a|a].
+  - destruct Hm as (E & ds & HL & Hlen & Hd). split; [assumption|]. exists ds. split; [assumption|]. split; [assumption|].
+    intros c. rewrite (Hd c). apply Hss.
+  - destruct Hm as (E & A & B & C & (R1 & R2 & R3 & R4) & F & G). repeat (split; [assumption|]). split; [|split; assumption].
+    split; [assumption|]. split; [assumption|]. split; [assumption|]. intros c. rewrite (R4 c). apply Hss.
+  - destruct Hm as (E & HI & Hpos). split; [assumption|]. split; [|assumption].
+    apply (inv4_ext hip lgk (spec_regs lgk cs)); [intros j _; apply Hrq|assumption].
+  - destruct Hm as (E & Hk6 & Hr & Hz). repeat (split; [assumption|]). split; [intros j; rewrite Hr; apply Hrq|rewrite Hz; now apply req_zeros].
+  - destruct Hm as (E & Hk8 & Hr & Hz). repeat (split; [assumption|]). split; [intros j; rewrite Hr; apply Hrq|rewrite Hz; now apply req_zeros].
+Qed.
+
+(* a sketch built by HllSketch::new + updates represents its own stream *)
+Theorem stream_is_source : forall lgk t cs, 4 <= lgk <= 21 -> Forall valid cs ->
+  exists s, run_stream hip_new hip_update hip_carry lgk t cs = Ok s /\ SrcOK lgk (tag_flag (sk_tag s)) cs s.
+Proof.
+  intros lgk t cs Hlg Hv.
+  destruct (sim_stream hip hip_new hip_update hip_carry AC AC_cons AC_cond lgk t cs Hlg Hv) as (s & s8 & Hr & _ & HS).
+  exists s. split; [assumption|]. apply (src_ok_set lgk _ (rev cs) cs); [intros c; symmetry; apply in_rev|assumption|].
+  apply (sim_src_ok AC lgk t (rev cs) s s8); [assumption|now apply Forall_rev|assumption].
+Qed.
+
+(* replacing the estimator state (e.g. deserializing with the out-of-order flag set) keeps it one *)
+Definition with_est (f : hip -> hip) (s : hsketch) : hsketch :=
+  match sk_mode s with
+  | MArr4 a => mkSketch (sk_lgk s) (MArr4 (mkA4 (a4_lgk a) (a4_bytes a) (a4_cur_min a) (a4_num a) (a4_aux a) (f (a4_est a))))
+  | MArr6 a => mkSketch (sk_lgk s) (MArr6 (mkA6 (a6_lgk a) (a6_bytes a) (a6_nz a) (f (a6_est a))))
+  | MArr8 a => mkSketch (sk_lgk s) (MArr8 (mkA8 (a8_lgk a) (a8_bytes a) (a8_nz a) (f (a8_est a))))
+  | _ => s
+  end.
+
+Lemma with_est_src_ok : forall f lgk arrf cs s, SrcOK lgk arrf cs s -> SrcOK lgk arrf cs (with_est f s).
+Proof.
+  intros f lgk arrf cs s (Hk & Hlg & Hv & Hm). unfold with_est. destruct (sk_mode s) as [l t|st t|a|a|a] eqn:Em.
+  - unfold SrcOK. rewrite Em. repeat (split; [assumption|]). assumption.
+  - unfold SrcOK. rewrite Em. repeat (split; [assumption|]). assumption.
+  - unfold SrcOK. cbn [sk_lgk sk_mode]. split; [assumption|]. split; [assumption|]. split; [assumption|].
+    destruct Hm as (E & (Hk4 & HC & Hn) & Hpos). split; [assumption|]. split; [|assumption]. split; [assumption|]. split; assumption.
+  - unfold SrcOK. cbn [sk_lgk sk_mode]. split; [assumption|]. split; [assumption|]. split; [assumption|]. exact Hm.
+  - unfold SrcOK. cbn [sk_lgk sk_mode]. split; [assumption|]. split; [assumption|]. split; [assumption|]. exact Hm.
+Qed.
+
+(* ---------- a concrete non-trivial instance (non-vacuity of the hypotheses) ---------- *)
+From DS Require Proofs.HllC02.
+Definition ex_in1 : ainput := mkIn 10 true HllC02.ex_stream2.                (* array, lg_k 10, marked out of order *)
+Definition ex_in2 : ainput := mkIn 8 true (firstn 60 HllC02.ex_stream2).     (* array, lg_k 8, Hll4 *)
+Definition ex_in3 : ainput := mkIn 10 false (firstn 5 HllC02.ex_stream).     (* list *)
+Definition hrun := run_stream hip_new hip_update hip_carry.
+
+Lemma union_example : exists s1 s2 s3,
+  hrun 10 T6 (in_cs ex_in1) = Ok s1 /\ hrun 8 T4 (in_cs ex_in2) = Ok s2 /\ hrun 10 T8 (in_cs ex_in3) = Ok s3 /\
+  Forall uop_ok [UMerge ex_in1 (with_est (hip_set_ooo true) s1); UMerge ex_in2 s2; UMerge ex_in3 s3; UValue (pack_coupon 77 9)] /\
+  exists u0 u, union_new 10 = Ok u0 /\
+  uops_run [UMerge ex_in1 (with_est (hip_set_ooo true) s1); UMerge ex_in2 s2; UMerge ex_in3 s3; UValue (pack_coupon 77 9)] u0 = Ok u /\
+  sk_lgk (un_gadget u) = 8 /\ sk_tag (un_gadget u) = TagArray.
+Proof.
+  destruct HllC02.ex_stream_valid as [V1 V2].
+  assert (V60 : Forall valid (firstn 60 HllC02.ex_stream2)) by (apply HllC02.validb_Forall; vm_compute; reflexivity).
+  assert (V5 : Forall valid (firstn 5 HllC02.ex_stream)) by (apply HllC02.validb_Forall; vm_compute; reflexivity).
+  destruct (stream_is_source 10 T6 _ ltac:(lia) V2) as (s1 & R1 & S1).
+  destruct (stream_is_source 8 T4 _ ltac:(lia) V60) as (s2 & R2 & S2).
+  destruct (stream_is_source 10 T8 _ ltac:(lia) V5) as (s3 & R3 & S3).
+  exists s1, s2, s3.
+  assert (T1 : sk_tag s1 = TagArray) by (assert (H : option_map sk_tag (match hrun 10 T6 HllC02.ex_stream2 with Ok s => Some s | _ => None end) = Some TagArray) by (vm_compute; reflexivity); unfold hrun in H; rewrite R1 in H; cbn in H; congruence).
+  assert (T2 : sk_tag s2 = TagArray) by (assert (H : option_map sk_tag (match hrun 8 T4 (firstn 60 HllC02.ex_stream2) with Ok s => Some s | _ => None end) = Some TagArray) by (vm_compute; reflexivity); unfold hrun in H; rewrite R2 in H; cbn in H; congruence).
+  assert (T3 : sk_tag s3 = TagList) by (assert (H : option_map sk_tag (match hrun 10 T8 (firstn 5 HllC02.ex_stream) with Ok s => Some s | _ => None end) = Some TagList) by (vm_compute; reflexivity); unfold hrun in H; rewrite R3 in H; cbn in H; congruence).
+  rewrite T1 in S1. rewrite T2 in S2. rewrite T3 in S3. cbn [tag_flag] in *.
+  assert (Hval : valid (pack_coupon 77 9)) by (unfold valid; rewrite cvalue_pack; lia).
+  assert (Hok : Forall uop_ok [UMerge ex_in1 (with_est (hip_set_ooo true) s1); UMerge ex_in2 s2; UMerge ex_in3 s3; UValue (pack_coupon 77 9)]).
+  { constructor; [apply (with_est_src_ok _ 10 true HllC02.ex_stream2); exact S1|]. constructor; [exact S2|].
+    constructor; [exact S3|]. constructor; [exact Hval|constructor]. }
+  destruct (union_refines 10 _ ltac:(lia) Hok) as (u0 & u & Hn & Hrun & Hsh).
+  split; [exact R1|]. split; [exact R2|]. split; [exact R3|]. split; [assumption|].
+  exists u0, u. split; [assumption|]. split; [assumption|].
+  assert (A1 : in_active ex_in1 = true) by reflexivity. assert (A2 : in_active ex_in2 = true) by reflexivity.
+  assert (A3 : in_active ex_in3 = false) by reflexivity.
+  cbn [spec_run fold_left spec_step] in Hsh. rewrite A1, A2, A3 in Hsh. cbn [orb in_lgk ex_in1 ex_in2] in Hsh.
+  destruct Hsh as ((Hk & _ & Htag & _) & _).
+  split; [rewrite Hk; reflexivity|]. apply Htag. now left.
+Qed.
